@@ -1,5 +1,2 @@
-From Coq Require Import QArith List.
-From PV Require Import Lib.WLS C13.LinAlg C13.Model.
-Open Scope Q_scope.
-Lemma monomial_0 : forall x, monomial 0 x == 1.
-Proof. intros; reflexivity. Qed.
+(* C13: all proofs (re-exported); see LinAlgProofs, BasisProofs, ChebR, FitProofs, TraceProofs. *)
+From PV Require Export C13.LinAlgProofs C13.BasisProofs C13.ChebR C13.FitProofs C13.TraceProofs.
